@@ -130,10 +130,13 @@ class CallGraph:
             for y in self.edges.get(x, ()):
                 if y not in within:
                     continue
-                if y == x and y in self.dispatch_edges.get(x, ()):
-                    # `<I as Trait>::m` on a generic parameter inside an impl of the same trait:
-                    # the parameter cannot be instantiated with the implementing type itself
-                    continue
+                if y in self.dispatch_edges.get(x, ()):
+                    # `<I as Trait>::m` on a generic parameter inside an impl (or an inherent helper
+                    # method) of a type that implements the same trait: the parameter cannot be
+                    # instantiated with the wrapping type itself (that would be an infinite type)
+                    bx, by = self.facts.bodies.get(x), self.facts.bodies.get(y)
+                    if y == x or (bx is not None and by is not None and bx.impl_self_adt and bx.impl_self_adt == by.impl_self_adt):
+                        continue
                 if color.get(y) == 1:
                     return path[path.index(y):] + [y]
                 if y not in color:
